@@ -520,6 +520,53 @@ def genExpireH (c : ChildRef) (hard : Bool) : HM Msg := do
 
 def policyOf (p : Protect) : Policy := { myTs := p.myTs, peerTs := p.peerTs, mode := p.mode }
 
+/-- "handle REKEY specifics": the replaced CHILD_SA must exist, must not be in the middle of our own delete or rekey,
+    and the proposed selectors must be exactly its selectors; the response starts with the REKEY_SA notification -/
+def childRekeyPrelude (request : Msg) (sa : List Proposal) (tsi tsr : List TS) : HM (List Payload) := do
+  let me ← getMe
+  match getNotifies request nREKEY_SA true with
+  | [] => pure []
+  | (proto, spi, _) :: _ =>
+    match getKid me.ext.kids spi with
+    | none => HM.raise (excChildNotFound proto spi)
+    | some old => do
+      if me.core.st = stDEL_CHILD_REQ_SENT ∧ (me.ext.deleting.map (childEq old)) = some true then HM.raise excTemporaryFailure
+      if me.core.st = stREK_CHILD_REQ_SENT ∧ (me.ext.rekeying.map (childEq old)) = some true then HM.raise excTemporaryFailure
+      if tsi ≠ old.tsr ∨ tsr ≠ old.tsi then HM.raise excTsUnacceptable
+      match sa with
+      | [] => HM.raise excPython
+      | p0 :: _ => pure [mkNotify p0.proto nREKEY_SA old.inSpi []]
+
+/-- the nonce part: none in IKE_AUTH (the IKE_SA_INIT nonces are used), else the peer's must be there and ours is drawn -/
+def childNonce (request : Msg) : HM (List Payload) :=
+  if request.hdr.exch = 35 then pure [] else do
+    let _ ← nonceOf (← getPayload request ptNONCE true)
+    let n ← popBytes
+    pure [mkP ptNONCE (.nonce n)]
+
+/-- "if KE exchange is required": group check, key pair, shared secret -/
+def childKe (request : Msg) (chosen : Proposal) : HM (List Payload) :=
+  if hasDh chosen then do
+    let (keGroup, _) ← keOf (← getPayload request ptKE true)
+    match dhGroup chosen with
+    | none => HM.raise excPython
+    | some g =>
+      if g ≠ keGroup then HM.raise (excInvalidKe g)
+      let pub ← popBytesOrFail
+      popOk
+      pure [mkP ptKE (.ke g pub)]
+  else pure []
+
+/-- the CHILD_SA record the responder creates and the kernel is asked to install; tracked only when installed -/
+def childCreateResponder (chosen : Proposal) (chosenTsr chosenTsi : TS) (mode : Nat) (pol : Protect) : HM Child := do
+  let spi ← popBytes
+  -- (`chosen.spi = inbound_spi` is later assigned to the very object the ChildSa refers to)
+  let child : Child := { outSpi := chosen.spi, inSpi := spi, proposal := { chosen with spi := spi }, tsi := [chosenTsr], tsr := [chosenTsi],
+                         mode := mode, lifetime := pol.lifetime, orig := pol.proposal }
+  installChild child
+  addKid child
+  pure child
+
 /-- the body of the `try` of `_process_create_child_sa_negotiation_req` -/
 def childNegotiationReqBody (request : Msg) : HM (List Payload) := do
   let sa ← saOf (← getPayload request ptSA true)
@@ -527,24 +574,8 @@ def childNegotiationReqBody (request : Msg) : HM (List Payload) := do
   let tsr ← tsOf (← getPayload request ptTSr true)
   let me ← getMe
   if me.core.st = stREK_IKE_SA_REQ_SENT ∨ me.core.st = stDEL_IKE_SA_REQ_SENT then HM.raise excTemporaryFailure
-  -- rekey specifics
-  let pre ← match getNotifies request nREKEY_SA true with
-    | [] => pure []
-    | (proto, spi, _) :: _ =>
-      match getKid me.ext.kids spi with
-      | none => HM.raise (excChildNotFound proto spi)
-      | some old => do
-        if me.core.st = stDEL_CHILD_REQ_SENT ∧ (me.ext.deleting.map (childEq old)) = some true then HM.raise excTemporaryFailure
-        if me.core.st = stREK_CHILD_REQ_SENT ∧ (me.ext.rekeying.map (childEq old)) = some true then HM.raise excTemporaryFailure
-        if tsi ≠ old.tsr ∨ tsr ≠ old.tsi then HM.raise excTsUnacceptable
-        match sa with
-        | [] => HM.raise excPython
-        | p0 :: _ => pure [mkNotify p0.proto nREKEY_SA old.inSpi []]
-  -- nonces
-  let pre ← if request.hdr.exch = 35 then pure pre else do
-    let _ ← nonceOf (← getPayload request ptNONCE true)
-    let n ← popBytes
-    pure (pre ++ [mkP ptNONCE (.nonce n)])
+  let pre ← childRekeyPrelude request sa tsi tsr
+  let nonce ← childNonce request
   -- policy and narrowing
   match getIpsecConf tsi tsr (me.ext.conf.protect.map policyOf) with
   | none => HM.raise excTsUnacceptable
@@ -554,29 +585,16 @@ def childNegotiationReqBody (request : Msg) : HM (List Payload) := do
     | some pol =>
       let transport := ¬ (getNotifies request nUSE_TRANSPORT_MODE true).isEmpty
       let requestedMode := if transport then 0 else 1
-      let pre := if transport then pre ++ [mkNotify 0 nUSE_TRANSPORT_MODE [] []] else pre
+      let modeN := if transport then [mkNotify 0 nUSE_TRANSPORT_MODE [] []] else []
       if pol.mode ≠ requestedMode then HM.raise excTsUnacceptable
       let mine := if request.hdr.exch = 35 then withoutDh pol.proposal else pol.proposal
       match selectBest mine sa with
       | none => HM.raise excNoProposal
       | some chosen =>
-        let pre ← if hasDh chosen then do
-            let (keGroup, _) ← keOf (← getPayload request ptKE true)
-            match dhGroup chosen with
-            | none => HM.raise excPython
-            | some g =>
-              if g ≠ keGroup then HM.raise (excInvalidKe g)
-              let pub ← popBytesOrFail
-              popOk
-              pure (pre ++ [mkP ptKE (.ke g pub)])
-          else pure pre
-        let spi ← popBytes
-        -- (`chosen.spi = inbound_spi` is later assigned to the very object the ChildSa refers to)
-        let child : Child := { outSpi := chosen.spi, inSpi := spi, proposal := { chosen with spi := spi }, tsi := [chosenTsr], tsr := [chosenTsi],
-                               mode := requestedMode, lifetime := pol.lifetime, orig := pol.proposal }
-        installChild child
-        addKid child
-        pure (pre ++ [mkP ptSA (.sa [{ chosen with spi := spi }]), mkP ptTSi (.ts [chosenTsi]), mkP ptTSr (.ts [chosenTsr])])
+        let ke ← childKe request chosen
+        let child ← childCreateResponder chosen chosenTsr chosenTsi requestedMode pol
+        pure (pre ++ nonce ++ modeN ++ ke ++
+              [mkP ptSA (.sa [{ chosen with spi := child.inSpi }]), mkP ptTSi (.ts [chosenTsi]), mkP ptTSr (.ts [chosenTsr])])
 
 /-- `_process_create_child_sa_negotiation_req`: the two `except` clauses turn protocol errors and kernel refusals
     into one NOTIFY; anything else escapes -/
